@@ -121,6 +121,55 @@ Theorem C14_subpoint_on_ellipsoid : forall x y z lat,
 Proof. exact subpoint_on_ellipsoid. Qed.
 Print Assumptions C14_subpoint_on_ellipsoid.
 
+(* geoloc.geodetic_lat: the loop  phi <- atan2(z + a C(phi) e2 sin phi, r)  regenerated from the source (gen_geodetic_step;
+   gen_geodetic_lat_1 is its first iterate) TERMINATES: for every point off the polar axis and at least sqrt(0.993) a
+   (6355.8 km: on or outside the ellipsoid) from the centre, the np.allclose test |new - old| <= 1e-8 + 1e-5 |old| succeeds at
+   the fourth comparison at the latest (contraction factor 0.0069, Coquelicot MVT) *)
+From PyOrb.proofs Require P_GeoLatLoop.
+Theorem C14_geodetic_lat_step_contracts : forall r z, 0 < r ->
+  993 / 1000 * (P_GeoLatLoop.ag * P_GeoLatLoop.ag) <= r * r + z * z -> forall a b,
+  Rabs (P_GeoLatLoop.gstep a r z - P_GeoLatLoop.gstep b r z) <= 69 / 10000 * Rabs (a - b).
+Proof. exact P_GeoLatLoop.step_contracts. Qed.
+Print Assumptions C14_geodetic_lat_step_contracts.
+
+Theorem C14_geodetic_lat_terminates : forall x y z, 0 < x * x + y * y ->
+  993 / 1000 * (P_GeoLatLoop.ag * P_GeoLatLoop.ag) <= x * x + y * y + z * z ->
+  let p0 := atan2 z (sqrt (x * x + y * y)) in
+  let p1 := gen_geodetic_step p0 x y z in let p2 := gen_geodetic_step p1 x y z in
+  let p3 := gen_geodetic_step p2 x y z in let p4 := gen_geodetic_step p3 x y z in
+  p1 = gen_geodetic_lat_1 x y z /\
+  Rabs (p4 - p3) <= 1 / 100000000 + 1 / 100000 * Rabs p3.
+Proof. exact P_GeoLatLoop.gen_loop_exits_by_4. Qed.
+Print Assumptions C14_geodetic_lat_terminates.
+
+(* ... and FROM THE EXIT TEST ALONE, at whichever comparison the loop is left (phik: the previous iterate, every iterate being
+   in [-pi/2, pi/2]): the point is within 1 m of the line through subpoint(point) along the ellipsoid's normal there.
+   perp2 x y z lat is the squared distance [km^2] to that line; its direction is the unit normal (gradient of the ellipsoid's
+   equation) at the subpoint, with b^2 = a^2 (1 - e2) the module's B *)
+Theorem C14_point_on_normal_within_1m : forall x y z phik, 0 < x * x + y * y -> Rabs phik <= PI / 2 ->
+  Rabs (gen_geodetic_step phik x y z - phik) <= 1 / 100000000 + 1 / 100000 * Rabs phik ->
+  P_GeoLatLoop.perp2 x y z (gen_geodetic_step phik x y z) <= (1 / 1000) ^ 2.
+Proof. exact P_GeoLatLoop.exit_implies_1m. Qed.
+Print Assumptions C14_point_on_normal_within_1m.
+
+Theorem C14_iterates_in_range : forall x y z phik, 0 < x * x + y * y ->
+  Rabs (atan2 z (sqrt (x * x + y * y))) <= PI / 2 /\ Rabs (gen_geodetic_step phik x y z) <= PI / 2.
+Proof. intros x y z phik H. exact (conj (P_GeoLatLoop.start_range x y z H) (P_GeoLatLoop.iterate_range x y z phik H)). Qed.
+Print Assumptions C14_iterates_in_range.
+
+Theorem C14_perp2_direction_is_the_normal : forall x y z lat,
+  (cos lat * cos (atan2 y x)) ^ 2 + (cos lat * sin (atan2 y x)) ^ 2 + (sin lat) ^ 2 = 1 /\
+  (let k := P_GeoLatLoop.ag * P_GeoLatLoop.Cg lat / (P_GeoLatLoop.ag * P_GeoLatLoop.ag) in
+   0 < k /\
+   gen_subpoint_x x y z lat / (P_GeoLatLoop.ag * P_GeoLatLoop.ag) = k * (cos lat * cos (atan2 y x)) /\
+   gen_subpoint_y x y z lat / (P_GeoLatLoop.ag * P_GeoLatLoop.ag) = k * (cos lat * sin (atan2 y x)) /\
+   gen_subpoint_z x y z lat / (P_GeoLatLoop.ag * P_GeoLatLoop.ag * (1 - P_GeoLatLoop.e2g)) = k * sin lat) /\
+  P_GeoLatLoop.ag * P_GeoLatLoop.ag * (1 - P_GeoLatLoop.e2g) = (635675231414 / 100000000) ^ 2.
+Proof.
+  intros x y z lat. exact (conj (P_GeoLatLoop.normal_unit x y lat) (conj (P_GeoLatLoop.normal_gradient x y z lat) P_GeoLatLoop.b_squared)).
+Qed.
+Print Assumptions C14_perp2_direction_is_the_normal.
+
 (* the sense, on a concrete input: the x axis turned about +z by +90 deg goes to -y *)
 Theorem C14_clockwise_example :
   gen_qrotate_x 1 0 0 0 0 1 (PI / 2) = 0 /\ gen_qrotate_y 1 0 0 0 0 1 (PI / 2) = -1 /\
